@@ -1,52 +1,79 @@
 import KvarnModel.Rust
 /-
-C06, the memo: `CompressedResponse::{get_gzip, get_br, get_zstd}` (`comprash.rs`). Each caller
-  1. looks at the cell (`if self.gzip().is_none()`),
-  2. if empty: compresses the identity body at its own level (`spawn_blocking(..).await` — other tasks run),
-  3. looks again ("Last check"), 4. stores (`replace`) — two separate steps on a multi-thread runtime,
-  5. takes a reference into the cell (`self.gzip().as_ref().unwrap()`), 6. the caller clones through it.
-Any number of callers, any interleaving of these steps. The encoder is a parameter with its contract.
+C06, the memo: `CompressedResponse::{get_gzip, get_br, get_zstd}` (`comprash.rs`). Each compressed variant lives in a
+`tokio::sync::OnceCell<Bytes>`; every caller runs `cell.get_or_init(|| async { compress at my level })`:
+  1. looks at the cell; if it is set, returns a reference to its value;
+  2. otherwise waits for the cell's single permit (a closed semaphore — the cell was set meanwhile — ends the wait);
+  3. the permit holder compresses the identity body at its own level (`spawn_blocking(..).await` — other tasks run),
+  4. stores the value (which closes the semaphore and wakes every waiter) and returns a reference to it.
+A caller's future can be dropped at any await (the client went away): a permit it holds goes back.
+Any number of callers, any interleaving of these steps and of cancellations. The encoder is a parameter with its
+contract; `OnceCell` itself is trusted to behave as its documentation says (trusted base).
 -/
 namespace Memo
+open Rust
 
 inductive PC
   | start                      -- before the first look
-  | computing                  -- saw the cell empty; compressing
-  | computed (b : Bytes)       -- has its own buffer; before the last check
-  | storing (b : Bytes)        -- saw the cell empty at the last check; before `replace`
-  | reading                    -- before `as_ref().unwrap()`
-  | holding                    -- holds `&Bytes` into the cell
-  | done (r : Bytes)           -- cloned
-  | panicked
+  | waiting                    -- saw the cell empty; waiting for the permit
+  | computing                  -- holds the permit; compressing
+  | computed (b : Bytes)       -- holds the permit and its own buffer; before `set_value`
+  | done (r : Bytes)           -- returned `&Bytes` into the cell (the cell is never written again)
+  | cancelled                  -- the future was dropped
   deriving Repr, DecidableEq
 
 structure St where
   cell : Option Bytes := none
+  permit : Bool := true        -- the permit is available
   tasks : List PC := []
   stores : Nat := 0
+  computes : Nat := 0          -- how many times the initialiser was started
+  releases : Nat := 0          -- how many times a permit came back because its holder went away
   deriving Repr
 
-/-- one step of task `i` (a no-op if it is finished or does not exist); `level i` is the level task `i` asked for -/
+/-- an operation: task `i` takes its next step, or its future is dropped -/
+structure Op where
+  i : Nat
+  cancel : Bool := false
+  deriving Repr, DecidableEq
+
+/-- one step of task `i` (a no-op if it is blocked, finished or does not exist); `level i` is the level task `i` asked for -/
 def step (enc : Nat → Bytes → Bytes) (level : Nat → Nat) (identity : Bytes) (s : St) (i : Nat) : St :=
   match s.tasks[i]? with
   | none => s
   | some pc =>
     let set (pc' : PC) : St := { s with tasks := s.tasks.set i pc' }
     match pc with
-    | .start => if s.cell.isNone then set .computing else set .reading
-    | .computing => set (.computed (enc (level i) identity))
-    | .computed b => if s.cell.isNone then set (.storing b) else set .reading
-    | .storing b => { s with cell := some b, stores := s.stores + 1, tasks := s.tasks.set i .reading }
-    | .reading => if s.cell.isNone then set .panicked else set .holding
-    | .holding => match s.cell with
+    | .start => match s.cell with
       | some b => set (.done b)
-      | none => set .panicked          -- a dangling reference
+      | none => set .waiting
+    | .waiting => match s.cell with
+      | some b => set (.done b)
+      | none => if s.permit then { s with permit := false, computes := s.computes + 1, tasks := s.tasks.set i .computing } else s
+    | .computing => set (.computed (enc (level i) identity))
+    | .computed b => { s with cell := some b, stores := s.stores + 1, tasks := s.tasks.set i (.done b) }
     | .done _ => s
-    | .panicked => s
+    | .cancelled => s
 
-def run (enc : Nat → Bytes → Bytes) (level : Nat → Nat) (identity : Bytes) : St → List Nat → St
+/-- dropping the future of task `i` -/
+def cancel (s : St) (i : Nat) : St :=
+  match s.tasks[i]? with
+  | none => s
+  | some pc =>
+    match pc with
+    | .start => { s with tasks := s.tasks.set i .cancelled }
+    | .waiting => { s with tasks := s.tasks.set i .cancelled }
+    | .computing => { s with permit := true, releases := s.releases + 1, tasks := s.tasks.set i .cancelled }
+    | .computed _ => { s with permit := true, releases := s.releases + 1, tasks := s.tasks.set i .cancelled }
+    | .done _ => s
+    | .cancelled => s
+
+def apply (enc : Nat → Bytes → Bytes) (level : Nat → Nat) (identity : Bytes) (s : St) (o : Op) : St :=
+  if o.cancel then cancel s o.i else step enc level identity s o.i
+
+def run (enc : Nat → Bytes → Bytes) (level : Nat → Nat) (identity : Bytes) : St → List Op → St
   | s, [] => s
-  | s, i :: is => run enc level identity (step enc level identity s i) is
+  | s, o :: os => run enc level identity (apply enc level identity s o) os
 
 def init (n : Nat) : St := { tasks := List.replicate n .start }
 
